@@ -3,6 +3,7 @@ package main
 import (
 	"fmt"
 	"go/token"
+	"go/types"
 	"strings"
 
 	"golang.org/x/tools/go/ssa"
@@ -45,7 +46,62 @@ func checkC07(p *Prog, r *Report) {
 		Required: map[string]string{"client.device": "ClientFeature.Device().Ski()|ClientFeature.Address().Device", "client.entity": "ClientFeature.Address().Entity"}})
 	r.Rule("R13", "every hand-written element-wise comparison of two slices of one type compares their lengths for equality: an announced entity address never resolves to an entity whose address is a prefix of it (shared lint, C20-R6)")
 	sliceEqualityHelpers(p, r, "R13")
+	r.Rule("R14", "the announcement renderers (Information of the local device, entity and feature) build their result from the live state on every call: no result is a pointer kept in a field of the object (a memoised rendering goes stale when a description or function changes later), and rendering assigns no field of the object")
+	c07Renderers(p, r)
 	r.Assumes("the closure returned by the id generator factory is only stored in Entity.fIdGenerator")
+}
+
+func c07Renderers(p *Prog, r *Report) {
+	n := 0
+	seen := map[*ssa.Function]bool{}
+	for _, in := range []string{"DeviceLocalInterface", "EntityLocalInterface", "FeatureLocalInterface"} {
+		iface := p.LookupIface("api", in)
+		if iface == nil {
+			r.Undecided("R14", "anchor:api."+in, "", "interface not found")
+			continue
+		}
+		for _, fn := range p.ImplsOf(iface, "Information") {
+			fn = originOf(fn)
+			if seen[fn] || fn.Blocks == nil || isWrapper(fn) {
+				continue
+			}
+			seen[fn] = true
+			n++
+			base := FnName(fn)
+			var bad []string
+			p.InScope(fn, func() {
+				for _, body := range p.ScopeFns(fn) {
+					for _, b := range body.Blocks {
+						for _, ins := range b.Instrs {
+							switch x := ins.(type) {
+							case *ssa.Store:
+								if fa, ok := x.Addr.(*ssa.FieldAddr); ok && strings.HasPrefix(Path(fa), "recv.") {
+									bad = append(bad, fmt.Sprintf("assigns %s at %s", Path(fa), p.InstrPos(x)))
+								}
+							case *ssa.Return:
+								if body != fn {
+									continue
+								}
+								for _, res := range x.Results {
+									for _, o := range ptrOrigins(res) {
+										if u, ok := o.(*ssa.UnOp); ok && u.Op == token.MUL {
+											if fa, ok := u.X.(*ssa.FieldAddr); ok && strings.HasPrefix(Path(fa), "recv.") {
+												if _, isPtr := u.Type().Underlying().(*types.Pointer); isPtr {
+													bad = append(bad, fmt.Sprintf("returns the pointer kept in %s at %s", Path(fa), p.InstrPos(x)))
+												}
+											}
+										}
+									}
+								}
+							}
+						}
+					}
+				}
+			})
+			r.Check("R14", base+"|renders-live-state", len(bad) == 0, p.Pos(fn.Pos()), fmt.Sprintf("the rendering is built anew on every call: %v", bad))
+		}
+	}
+	r.Floor("R14", "announcement renderers", n, 3)
 }
 
 func c07Generator(p *Prog, ls *Lockset, r *Report) {
